@@ -325,7 +325,12 @@ func runWorker(p *Prop, tier string, seed int64, spec, out string) {
 	if n := envInt("VERIF_CASES", 0); n > 0 {
 		total = int(n)
 	}
+	from := int(envInt("VERIF_FROM", 0))
+	only := int(envInt("VERIF_ONLY", -1))
 	for idx := shard; idx < total; idx += n {
+		if idx < from || (only >= 0 && idx != only) {
+			continue
+		}
 		w.cur = idx
 		if prog != nil {
 			fmt.Fprintf(prog, "%d\n", idx) // survives a process death (kernel-buffered)
@@ -404,6 +409,76 @@ type knownFile struct {
 	} `json:"fixed"`
 }
 
+// segRes is the outcome of one worker process.
+type segRes struct {
+	rec    *Rec // nil when the process died or was killed
+	killed bool
+	last   string // last case index it logged before dying
+	tail   string
+}
+
+// runSegment runs one worker process over (part of) shard i/nw.
+func runSegment(bin string, p *Prop, tier string, seed int64, tmp string, i, nw, seg int, timeout time.Duration, env []string) segRes {
+	out := filepath.Join(tmp, fmt.Sprintf("w%d-%d.json", i, seg))
+	errf, _ := os.Create(out + ".stderr")
+	cmd := exec.Command(bin, p.ID, "--tier", tier, "--worker", fmt.Sprintf("%d/%d", i, nw), "--out", out)
+	cmd.Stdout = errf
+	cmd.Stderr = errf
+	cmd.Env = append(os.Environ(), fmt.Sprintf("VERIF_SEED=%d", seed), "GOTRACEBACK=all")
+	cmd.Env = append(cmd.Env, env...)
+	if p.Binary == "race" {
+		cmd.Env = append(cmd.Env, "GORACE=halt_on_error=0 log_path="+filepath.Join(tmp, fmt.Sprintf("race-w%d-%d", i, seg)))
+	}
+	var res segRes
+	done := make(chan error, 1)
+	if err := cmd.Start(); err != nil {
+		return segRes{tail: err.Error()}
+	}
+	go func() { done <- cmd.Wait() }()
+	var werr error
+	select {
+	case werr = <-done:
+	case <-time.After(timeout):
+		cmd.Process.Signal(os.Interrupt)
+		cmd.Process.Kill()
+		<-done
+		res.killed = true
+	}
+	errf.Close()
+	pb, _ := os.ReadFile(out + ".progress")
+	if lines := strings.Fields(string(pb)); len(lines) > 0 {
+		res.last = lines[len(lines)-1]
+	}
+	if res.killed {
+		return res
+	}
+	b, rerr := os.ReadFile(out)
+	if werr != nil || rerr != nil {
+		eb, _ := os.ReadFile(out + ".stderr")
+		if len(eb) > 6000 {
+			eb = append(eb[:3000:3000], eb[len(eb)-3000:]...)
+		}
+		res.tail = string(eb)
+		return res
+	}
+	rec := newRec()
+	if err := json.Unmarshal(b, rec); err != nil {
+		res.tail = "bad worker output: " + err.Error()
+		return res
+	}
+	res.rec = rec
+	return res
+}
+
+func firstLine(s, containing string) string {
+	for _, l := range strings.Split(s, "\n") {
+		if strings.Contains(l, containing) {
+			return l
+		}
+	}
+	return ""
+}
+
 func runDriver(p *Prop, tier string, seed int64) int {
 	start := time.Now()
 	home := os.Getenv("VERIF_HOME")
@@ -459,77 +534,66 @@ func runDriver(p *Prop, tier string, seed int64) int {
 	agg := newRec()
 	var wg sync.WaitGroup
 	type wres struct {
-		rec    *Rec
-		died   bool
+		recs   []*Rec
+		deaths []segRes
 		killed bool
 		last   string
-		tail   string
 	}
 	results := make([]wres, nw)
 	for i := 0; i < nw; i++ {
 		wg.Add(1)
 		go func(i int) {
 			defer wg.Done()
-			out := filepath.Join(tmp, fmt.Sprintf("w%d.json", i))
-			errf, _ := os.Create(out + ".stderr")
-			cmd := exec.Command(bin, p.ID, "--tier", tier, "--worker", fmt.Sprintf("%d/%d", i, nw), "--out", out)
-			cmd.Stdout = errf
-			cmd.Stderr = errf
-			cmd.Env = append(os.Environ(), fmt.Sprintf("VERIF_SEED=%d", seed), "GOTRACEBACK=all")
-			if p.Binary == "race" {
-				cmd.Env = append(cmd.Env, "GORACE=halt_on_error=0 log_path="+filepath.Join(tmp, fmt.Sprintf("race-w%d", i)))
-			}
-			done := make(chan error, 1)
-			if err := cmd.Start(); err != nil {
-				results[i] = wres{died: true, tail: err.Error()}
-				return
-			}
-			go func() { done <- cmd.Wait() }()
-			var werr error
-			select {
-			case werr = <-done:
-			case <-time.After(timeout):
-				cmd.Process.Signal(os.Interrupt)
-				cmd.Process.Kill()
-				<-done
-				results[i].killed = true
-			}
-			errf.Close()
-			b, rerr := os.ReadFile(out)
-			if werr != nil || rerr != nil {
-				results[i].died = true
-				pb, _ := os.ReadFile(out + ".progress")
-				lines := strings.Fields(string(pb))
-				if len(lines) > 0 {
-					results[i].last = lines[len(lines)-1]
+			// One shard may take several processes: when a worker dies, the case it was
+			// running is the finding and the rest of the shard continues in a new
+			// process (a death must not hide what the remaining cases would show).
+			from := 0
+			for seg := 0; seg < 40; seg++ {
+				r := runSegment(bin, p, tier, seed, tmp, i, nw, seg, timeout, []string{fmt.Sprintf("VERIF_FROM=%d", from)})
+				if r.rec != nil {
+					results[i].recs = append(results[i].recs, r.rec)
+					return
 				}
-				eb, _ := os.ReadFile(out + ".stderr")
-				if len(eb) > 6000 {
-					eb = append(eb[:3000:3000], eb[len(eb)-3000:]...)
+				if r.killed {
+					results[i].killed, results[i].last = true, r.last
+					return
 				}
-				results[i].tail = string(eb)
-				return
+				results[i].deaths = append(results[i].deaths, r)
+				idx, err := strconv.Atoi(r.last)
+				if err != nil {
+					return // died before its first case: nothing to continue from
+				}
+				from = idx + 1
 			}
-			rec := newRec()
-			if err := json.Unmarshal(b, rec); err != nil {
-				results[i].died = true
-				results[i].tail = "bad worker output: " + err.Error()
-				return
-			}
-			results[i].rec = rec
 		}(i)
 	}
 	wg.Wait()
 	for i, r := range results {
-		switch {
-		case r.killed:
+		for _, rec := range r.recs {
+			agg.merge(rec)
+		}
+		if r.killed {
 			agg.Inconclusive(fmt.Sprintf("worker %d exceeded the %v watchdog at case %s", i, timeout, r.last))
-		case r.died:
-			idx, _ := strconv.Atoi(r.last)
+		}
+		for _, d := range r.deaths {
+			idx, _ := strconv.Atoi(d.last)
+			// A death caused by a per-case wall-clock watchdog of the property itself
+			// (it prints WEDGED and exits 7) is re-tried alone, now that the other
+			// workers are gone, with the watchdog scaled up: on a loaded machine a case
+			// can be slow without being wedged.  Any other death, and a watchdog that
+			// fires again, is the finding.
+			if strings.Contains(d.tail, "WEDGED:") && d.last != "" {
+				rr := runSegment(bin, p, tier, seed, tmp, i, nw, 1000+idx, timeout, []string{"VERIF_ONLY=" + d.last, "VERIF_WATCHDOG_SCALE=5"})
+				if rr.rec != nil {
+					agg.merge(rr.rec)
+					agg.Count("watchdog_deaths_not_reproduced_when_run_alone", 1)
+					agg.SetAdd("slow_cases_retried", fmt.Sprintf("case %d: %s", idx, firstLine(d.tail, "WEDGED:")))
+					continue
+				}
+				d = rr
+			}
 			agg.violate(Violation{Key: "worker-died", Idx: idx,
-				Summary: fmt.Sprintf("worker %d/%d died while running case %s (fatal runtime error or exit)", i, nw, r.last), Detail: r.tail})
-		default:
-			agg.merge(r.rec)
+				Summary: fmt.Sprintf("worker %d/%d died while running case %s (fatal runtime error or exit)", i, nw, d.last), Detail: d.tail})
 		}
 	}
 	if p.Binary == "race" {
